@@ -53,6 +53,10 @@ def permute_ops(so, mode, rng):
 
 
 def logic_perm_check(rep, c, name, reuse, strip, recipe):
+    lanes.explore(lambda eng: _logic_perm_path(rep, c, name, reuse, strip, recipe), rep)
+
+
+def _logic_perm_path(rep, c, name, reuse, strip, recipe):
     """E1: list order vs permuted order inside levels, all stimuli"""
     for m in (2, 8):
         ref = LogicSim(c, 3, m=m, c_reuse=reuse, strip_forks=strip)
